@@ -13,11 +13,11 @@ PLANS = {
     "C09": [("small", 200, None, "writer", 99, 5000, None), ("small", 200, None, "perms", 6, 4000, 60000), ("small", 150, 600, "subsets", 13, 2000, 30000),
             ("small", 150, 600, "corrupt", 99, 1500, None), ("car", 60, 300, "join", 99, 800, None)],
     "C16": [("car", 160, None, "join", 99, None, None)],
-    "C19": [("exp", None, None, "expiry", 99, None, None)],
+    "C19": [("exp", None, None, "expiry", 99, None, None), ("exp2", None, None, "expiry2", 99, None, None)],
 }
 
 # sender families judged by Mon_Sender for the sender-side conjuncts of a receiver-side property
-SENDER_SIDE = {"C01": [("S6", None, None), ("S8", None, None), ("S1", 400, 6000)]}
+SENDER_SIDE = {"C01": [("S6", None, None), ("S6b", None, None), ("S8", None, None), ("S1", 400, 6000)]}
 
 TEXT = {
     "C01": "clean channel: byte-exact single delivery with metadata",
